@@ -109,10 +109,10 @@ SILENT_EDITS = [   # behaviour-preserving, no new violation
 ]
 
 
-# pending finding: sC20.rule_hoist (C20-HOIST: operand2 of a binary node forced into a temporary without operand1) is NOT registered below - on the unmodified tree it reports
-# ExprNodes.PrimaryCmpNode.analyse_types:operand2-before-operand1, a genuine defect (`f() < g() < h()` with cdef noexcept functions logs g, f, h; /tmp/strengthen/G5/FINDING_1.md).
+# sC20.rule_hoist (C20-HOIST: operand2 of a binary node forced into a temporary without operand1) found ExprNodes.PrimaryCmpNode.analyse_types:operand2-before-operand1
+# (`f() < g() < h()` with cdef noexcept functions logged g, f, h) - repaired in /repo (cdf5a6519), the rule is registered.
 def run(ctx):
     from ..rules import flatpar
     from ..rules import sC20
     return [pC20.rule_order(ctx), pC20.rule_once(ctx), pC20.rule_let_order(ctx), pC20.rule_drop(ctx), flatpar.rule_flat(ctx),
-            sC20.rule_paste(ctx), sC20.rule_stack(ctx)]
+            sC20.rule_paste(ctx), sC20.rule_stack(ctx), sC20.rule_hoist(ctx)]
